@@ -76,35 +76,13 @@ def r3_1(repo: Repo) -> RuleResult:
 
 
 def _dispatch_arm(first_if: ast.If, key: str, what: str) -> List[ast.stmt]:
-    """Statements an if / elif chain on string constants executes for the orientation `key`: each test
-    `<var> == 'c'` / `<var> != 'c'` / `<var> in (...)` is evaluated for that value, the first true arm is taken,
-    the final else otherwise."""
-    cur: Optional[ast.stmt] = first_if
-    while isinstance(cur, ast.If):
-        t = cur.test
-        truth = None
-        if isinstance(t, ast.Compare) and len(t.ops) == 1:
-            c = t.comparators[0]
-            if isinstance(c, ast.Constant) and isinstance(c.value, str):
-                if isinstance(t.ops[0], ast.Eq):
-                    truth = key == c.value
-                elif isinstance(t.ops[0], ast.NotEq):
-                    truth = key != c.value
-            elif isinstance(c, (ast.Tuple, ast.List, ast.Set)) and all(isinstance(e, ast.Constant) for e in c.elts):
-                vals = [e.value for e in c.elts]
-                if isinstance(t.ops[0], ast.In):
-                    truth = key in vals
-                elif isinstance(t.ops[0], ast.NotIn):
-                    truth = key not in vals
-        if truth is None:
-            raise AnalysisError("R3.2: %s dispatch test `%s` is not a comparison with orientation constants" % (what, norm(t)))
-        if truth:
-            return cur.body
-        if cur.orelse and len(cur.orelse) == 1 and isinstance(cur.orelse[0], ast.If):
-            cur = cur.orelse[0]
-        else:
-            return cur.orelse
-    return []
+    """Statements an if / elif chain on string constants executes for the orientation `key` (nested tests on the same
+    constants are resolved as well, wherever they sit in the arm)."""
+    from .common import const_test_truth, flatten_dispatch
+
+    if const_test_truth(first_if.test, key) is None:
+        raise AnalysisError("R3.2: %s dispatch test `%s` is not a comparison with orientation constants" % (what, norm(first_if.test)))
+    return flatten_dispatch([first_if], key)
 
 
 def _init_tables(repo: Repo) -> Dict[str, List[Tuple[bool, str]]]:
